@@ -21,6 +21,12 @@ func genC03(t *rapid.T) *Case {
 	p.Top = append(append([]wc{}, p.Top...), wc{"para", 20}, wc{"list", 6}, wc{"quote", 5}, wc{"ltable", 4}, wc{"dtable", 3})
 	p.Core = append(append([]wc{}, p.Core...), wc{"para", 20}, wc{"list", 6}, wc{"quote", 5}, wc{"ltable", 4}, wc{"dtable", 3})
 	p.LessThanInCaptions = true
+	p.Attr = func(g *G, tag string) string {
+		if simpleInline[tag] && tag != "br" && g.intn(0, 14, "ariafalse") == 0 {
+			return ` aria-hidden="false"` // says what is the default anyway
+		}
+		return ""
+	}
 	p.Top = append(p.Top, wc{"figure", 8})
 	p.Core = append(p.Core, wc{"figure", 8})
 	g := newG(t, p)
